@@ -13,6 +13,7 @@ import (
 	"encoding/hex"
 	"fmt"
 	"io"
+	"sync"
 
 	"github.com/aead/cmac"
 
@@ -256,6 +257,9 @@ func xorBytes(a, b []byte) []byte {
 func (h *harness) checkEnc(t tuple) {
 	const site = "security.NASEncrypt"
 	r := h.r
+	if hk.BeyondLen(t.payload, func(w []byte) { _ = security.NASEncrypt(t.alg, t.key, t.count, t.bearer, t.dir, w) }) {
+		h.fail(site, "writes-beyond-payload", t.input(), "octets of the caller's array beyond len(payload) were overwritten")
+	}
 	key0 := t.key
 	class, after := encOnce(t, t.payload)
 	invalid := t.bearer > 31 || t.dir > 1 || t.payload == nil || t.alg > 3
@@ -380,6 +384,9 @@ func lenClass(p []byte) string {
 func (h *harness) checkMac(t tuple) {
 	const site = "security.NASMacCalculate"
 	r := h.r
+	if hk.BeyondLen(t.payload, func(w []byte) { _, _ = security.NASMacCalculate(t.alg, t.key, t.count, t.bearer, t.dir, w) }) {
+		h.fail(site, "writes-beyond-message", t.input(), "octets of the caller's array beyond len(msg) were overwritten")
+	}
 	msg := clone(t.payload)
 	key0 := t.key
 	var mac []byte
@@ -754,6 +761,22 @@ func run(r *hk.Run) {
 		h.checkNIA2("random_valid", pickKey(), pickCount(), uint8(rng.Intn(32)), uint8(rng.Intn(2)), payloadOf(rng.Intn(90)))
 	}
 
+	// ---------------- (3b) block-structured messages (zero / all-ones / single-bit / repeated 8- and 16-octet
+	// blocks): CMAC chains 16-octet blocks, EIA1 multiplies 8-octet blocks, EIA3 sums words -- through the API
+	// with every algorithm, and NIA2 / NEA2 directly
+	for i := 0; i < r.N(160, 4000); i++ {
+		bs := []int{4, 8, 16, 16}[rng.Intn(4)]
+		msg := hk.BlockMsg(rng, bs, 1+rng.Intn(6), rng.Intn(bs+1))
+		t := tuple{alg: uint8(1 + rng.Intn(3)), key: pickKey(), count: pickCount(), bearer: uint8(rng.Intn(32)), dir: uint8(rng.Intn(2)),
+			payload: msg, stream: "block_structured", printCase: true}
+		h.checkEnc(t)
+		h.checkMac(t)
+		if i%4 == 0 {
+			h.checkNIA2("block_structured", t.key, t.count, t.bearer, t.dir, msg)
+			h.checkNEA2("block_structured", t.key, t.count, t.bearer, t.dir, msg)
+		}
+	}
+
 	// ---------------- (4) malformed: anything from the 256^3 grid, nil payloads
 	for i := 0; i < r.N(300, 20000); i++ {
 		var p []byte
@@ -775,6 +798,90 @@ func run(r *hk.Run) {
 		t := tuple{alg: alg, key: pickKey(), count: pickCount(), bearer: b, dir: d, payload: p, stream: "random_grid", printCase: true}
 		h.checkEnc(t)
 		h.checkMac(t)
+	}
+
+	// ---------------- concurrent contexts: several goroutines, each with its own key (an AMF serving several
+	// UEs), ciphering and MACing at the same time; every result must be the value of the function at its own
+	// arguments (128-EEA2 / 128-EIA2 for algorithm 2, the sequentially computed value for 1 and 3)
+	{
+		type job struct {
+			t       tuple
+			wantEnc []byte
+			wantMac []byte
+		}
+		const workers = 8
+		per := r.N(1500, 20000)
+		jobs := make([][]job, workers)
+		for w := range jobs {
+			key := randKey()
+			for i := 0; i < per; i++ {
+				alg := uint8(2)
+				if i%5 == 3 {
+					alg = 1
+				} else if i%5 == 4 {
+					alg = 3
+				}
+				t := tuple{alg: alg, key: key, count: uint32(i), bearer: uint8(rng.Intn(32)), dir: uint8(rng.Intn(2)), payload: rng.Bytes(1 + rng.Intn(80)), stream: "concurrent_contexts"}
+				j := job{t: t}
+				if alg == 2 {
+					j.wantEnc = refEEA2(t.key, t.count, t.bearer, t.dir, t.payload)
+					j.wantMac = refEIA2(t.key, t.count, t.bearer, t.dir, t.payload)
+				} else {
+					_, j.wantEnc = encOnce(t, t.payload)
+					j.wantMac, _ = security.NASMacCalculate(t.alg, t.key, t.count, t.bearer, t.dir, clone(t.payload))
+				}
+				jobs[w] = append(jobs[w], j)
+			}
+		}
+		var mu sync.Mutex
+		var wg sync.WaitGroup
+		bad := 0
+		for w := 0; w < workers; w++ {
+			wg.Add(1)
+			go func(js []job) {
+				defer wg.Done()
+				for _, j := range js {
+					class, got := encOnce(j.t, j.t.payload)
+					var mac []byte
+					var merr error
+					mp, _ := hk.Catch(func() {
+						mac, merr = security.NASMacCalculate(j.t.alg, j.t.key, j.t.count, j.t.bearer, j.t.dir, clone(j.t.payload))
+					})
+					var direct []byte
+					if j.t.alg == 2 {
+						hk.Catch(func() { direct, _ = security.NEA2(j.t.key, j.t.count, j.t.bearer, j.t.dir, clone(j.t.payload)) })
+					}
+					mu.Lock()
+					if class != "ok" || !bytes.Equal(got, j.wantEnc) {
+						if bad < 5 {
+							h.fail("security.NASEncrypt", "concurrent-contexts-differ", j.t.input(), fmt.Sprintf("%d goroutines with distinct keys: got %s %x want %x", workers, class, got, j.wantEnc))
+						}
+						bad++
+					}
+					if j.t.alg == 2 && !bytes.Equal(direct, j.wantEnc) {
+						if bad < 5 {
+							h.fail("security.NEA2", "concurrent-contexts-differ", j.t.input(), fmt.Sprintf("%d goroutines with distinct keys: got %x want %x", workers, direct, j.wantEnc))
+						}
+						bad++
+					}
+					if mp || merr != nil || !bytes.Equal(mac, j.wantMac) {
+						if bad < 5 {
+							h.fail("security.NASMacCalculate", "concurrent-contexts-differ", j.t.input(), fmt.Sprintf("%d goroutines with distinct keys: got %x want %x", workers, mac, j.wantMac))
+						}
+						bad++
+					}
+					mu.Unlock()
+				}
+			}(jobs[w])
+		}
+		wg.Wait()
+		for w := range jobs {
+			for _, j := range jobs[w] {
+				r.Count("concurrent_contexts", fmt.Sprintf("cc|%d|%x|%d|%x", j.t.alg, j.t.key, j.t.count, j.t.payload))
+			}
+		}
+		r.Extra["concurrent_contexts_workers"] = workers
+		r.Extra["concurrent_contexts_wrong"] = bad
 	}
 
 	// ---------------- thorough: the whole 256^3 grid on the implementation (oracle only)
